@@ -7,6 +7,8 @@
 //!   rt run <file>                             execute the op lines of a trace / ops file
 //!   rt header                                 print only the header (declaration + query menu)
 
+#[cfg(all(feature = "events", debug_assertions))]
+mod big256;
 mod boundary;
 mod comps;
 mod gen;
@@ -584,6 +586,10 @@ impl St {
                 });
                 REG.with(|r| r.borrow_mut().drop_fault = None);
                 let mut s = format!("n={} [{}] end={}", cx.calls.len(), cx.calls.join("|"), match r { Ok(()) => "ok".to_string(), Err(c) => format!("panic:{}", c) });
+                if r.is_ok() && !cx.after {
+                    // the statement after the query macro never ran: the query left the enclosing function
+                    s.push_str(" AFTER-SKIPPED");
+                }
                 if let Some(var) = save {
                     if let Some(d) = cx.last_dir {
                         let a = arch_of_id(d.archetype_id()).unwrap();
